@@ -218,6 +218,12 @@ class System:
         --channels set and hands it to every populate call)."""
         if chs is None:
             return None
+        if self.lp.get('setmode') == 'edited':
+            # the other habit of a caller: ONE set for all its requests, emptied and refilled before each (same object, new content)
+            one = self.chsets.setdefault('*', set())
+            one.clear()
+            one.update(chs)
+            return one
         key = repr(chs)
         if key not in self.chsets:
             self.chsets[key] = set(chs)
@@ -490,10 +496,11 @@ def gen_H(tier):
     t0 = [ch('X', 7, [1]), ch('A', 13, [3]), ch('B', 2, [1])]
     t1 = [ch('TIME', 17, [1]), ch('X', 2, [1], copy=1), ch('C', 5, [2, 2])]     # the first type's index name is an ordinary channel here
     for n0, n1, layout in [(3, 2, 'one'), (4, 3, 'split'), (2, 2, 'one')]:
-        lp = {'types': [{'name': 'FT0', 'channels': t0, 'n': n0}, {'name': 'FT1', 'channels': t1, 'n': n1}],
-              'order': list(itertools.islice(itertools.cycle([0, 1]), 2 * min(n0, n1))) + [0] * (n0 - min(n0, n1)) + [1] * (n1 - min(n0, n1)),
-              'layout': layout}
-        yield lp
+        for setmode in ('kept', 'edited'):
+            lp = {'types': [{'name': 'FT0', 'channels': t0, 'n': n0}, {'name': 'FT1', 'channels': t1, 'n': n1}],
+                  'order': list(itertools.islice(itertools.cycle([0, 1]), 2 * min(n0, n1))) + [0] * (n0 - min(n0, n1)) + [1] * (n1 - min(n0, n1)),
+                  'layout': layout, 'setmode': setmode}
+            yield lp
 
 
 def h_menu(lp):
@@ -512,7 +519,7 @@ def shards(tier):
     out += [{'gen': 'S', 'part': p, 'of': 12} for p in range(12)]
     out += [{'gen': 'I', 'part': p, 'of': 24} for p in range(24)]
     out += [{'gen': 'N', 'part': p, 'of': 12} for p in range(12)]
-    out += [{'gen': 'H', 'part': p, 'of': 3} for p in range(3)]
+    out += [{'gen': 'H', 'part': p, 'of': 6} for p in range(6)]
     return out
 
 
